@@ -561,6 +561,8 @@ impl IndexTable {
 			)))?;
 		}
 		log::trace!(target: "parity-db", "{}: Enacted chunk {}", self.id, index);
+		#[cfg(parity_db_verif)]
+		crate::verif::emit("TabWrite", &[2, self.id.as_u16() as u64, index, 0]);
 		Ok(())
 	}
 
